@@ -818,7 +818,23 @@ func (env *SpecEnv) call(c *ast.CallExpr) Val {
 				}
 			}
 			if mon == nil {
-				env.fail("no monitor declared for %s", x.A.T)
+				// no monitor: a mutex of a declared lock class (lockclass T.mutex nonblocking) is tracked too
+				if n := namedOf(x.A.T); n != nil && n.Obj().Pkg() != nil {
+					pre := n.Obj().Pkg().Path() + "." + n.Obj().Name() + "."
+					var cks []string
+					for ck := range fc.eng.lockClasses {
+						if strings.HasPrefix(ck, pre) {
+							cks = append(cks, ck)
+						}
+					}
+					if len(cks) == 1 {
+						if t, ok := env.st.nbLocks[cks[0]+"@"+x.A.Base]; ok {
+							return boolVal(t)
+						}
+						return boolVal("false")
+					}
+				}
+				env.fail("no monitor or single lock class declared for %s", x.A.T)
 			}
 			key := lockKey(mon, x.A.Base)
 			t, ok := env.st.locks[key]
